@@ -17,6 +17,7 @@ import os
 import random
 import shutil
 import struct
+import threading
 
 from .. import common, tlc, vsched
 from ..simdev import core as sd
@@ -195,8 +196,42 @@ REC = None          # the recorder of the execution in progress (one per worker 
 PRIVATE = ('_p',)
 
 
+class _Writer:
+    """what the recording wrappers keep per cache user: 1 = the process under observation,
+    2 = the other cache object that shares a directory with it (runs in an OS thread of its own)"""
+
+    def __init__(self, who):
+        self.who = who
+        self.opened = None
+        self.open_failed = False
+        self.pend_tab = 0
+        self.icrc = ''
+
+
+WRITER_FIELDS = ('who', 'kind', 'last_ret', 'req', 'opened', 'open_failed', 'pend_tab', 'icrc')
+
+
 class Recorder:
+    def __getattr__(self, n):
+        if n in WRITER_FIELDS:
+            return getattr(self._writer(), n)
+        raise AttributeError(n)
+
+    def __setattr__(self, n, v):
+        if n in WRITER_FIELDS:
+            setattr(self._writer(), n, v)
+        else:
+            object.__setattr__(self, n, v)
+
+    def _writer(self):
+        o = self.__dict__.get('other')
+        if o is not None and o.tid == threading.get_ident():
+            return o.w
+        return self.__dict__['_w1']
+
     def __init__(self, sc, base):
+        self._w1 = _Writer(1)
+        self.other = None        # OtherWriter in progress
         self.sc = sc
         self.base = base
         self.dirs = {'A': os.path.join(base, 'A'), 'B': os.path.join(base, 'B')}
@@ -213,8 +248,6 @@ class Recorder:
         self.crash_after = None
         self.crashed = False
         self.wk = None
-        self.opened = None
-        self.pend_tab = 0
         self.connected_flag = False
         self.project_on = bool(sc.get('project'))
         self.leaked = 0
@@ -250,7 +283,10 @@ class Recorder:
             if not os.path.isdir(p):
                 continue
             for fn in sorted(os.listdir(p)):
-                c = fn[:-5]
+                c = fn[:-5] if fn.endswith('.json') else fn
+                if os.path.isdir(os.path.join(p, fn)):
+                    out[(d, c)] = ('dir', 0, 0)
+                    continue
                 content = builtins.open(os.path.join(p, fn), 'rb').read()
                 info = self.fileinfo.get((d, c))
                 if info is None:
@@ -277,6 +313,11 @@ class Recorder:
                 'files': self.files_abs()}
 
     def emit(self, e, internal=False):
+        if self.who == 2:
+            return self.other.emit(self, e)
+        if e['e'] in ('ibegin', 'wbyte', 'rename'):
+            e.setdefault('rb', False)
+            e.setdefault('robase', [])
         if self.project_on:
             e['_p'] = self.project()
         self.ev.append(e)
@@ -287,6 +328,83 @@ class Recorder:
             if self.crash_after is not None and self.nint == self.crash_after:
                 self.crashed = True
                 raise Crash()
+
+
+def real_toc(spec):
+    """a table spec -> the dict of real cflib elements a TocFetcher would have built from the device"""
+    from cflib.crazyflie.log import LogTocElement
+    from cflib.crazyflie.param import ParamTocElement
+    toc = {}
+    for i, e in enumerate(device_entries(spec)):
+        data = bytes([e['type']]) + e['group'] + b'\x00' + e['name'] + b'\x00'
+        el = LogTocElement(i, data) if spec['kind'] == 'log' else ParamTocElement(i, data)
+        toc.setdefault(el.group, {})[el.name] = el
+    return toc
+
+
+class OtherWriter:
+    """Another cache object on the same directory (a second Crazyflie of a swarm in its own thread, another
+    client process): a real TocCache(rw_cache=dir) whose real insert(crc, table) runs in an OS thread of its
+    own and is let forward one recorded file operation at a time -- so its open / writes / rename / close
+    interleave with those of the process under observation exactly where the script says."""
+
+    def __init__(self, r, d, crc, spec):
+        self.w = _Writer(2)
+        self.r, self.d, self.crc, self.spec = r, d, crc, spec
+        self.go = threading.Semaphore(0)
+        self.ack = threading.Semaphore(0)
+        self.finished = False
+        self.error = None
+        self.tid = None
+        self.th = threading.Thread(target=self._run, daemon=True)
+
+    def _run(self):
+        self.tid = threading.get_ident()
+        try:
+            import cflib.crazyflie.toccache as tcm
+            cache = tcm.TocCache(rw_cache=self.r.dirs[self.d])
+            cache.insert(self.crc, real_toc(self.spec))
+        except BaseException as ex:      # noqa
+            import traceback
+            self.error = traceback.format_exc()
+        finally:
+            self.tid = None              # thread identifiers are reused: later threads are not the other writer
+            self.finished = True
+            self.ack.release()
+
+    def emit(self, r, e):
+        """called in the other writer's thread: record, then wait for the script's next `ostep`"""
+        if e['e'] in ('ibegin', 'wbyte', 'rename', 'oend'):
+            alive_ro = r.cf is not None and r.ro != 'none' and e.get('dir', self.d) == r.ro
+            if alive_ro:                 # it wrote into OUR read-only directory: not a write of our cache object
+                _freeze_ro(r.path(r.ro))
+            e['rb'] = bool(alive_ro)
+            e['robase'] = listing(r.path(r.ro)) if alive_ro else []
+        if r.project_on:
+            e['_p'] = r.project()
+        r.ev.append(e)
+        if e['e'] in ('ibegin', 'wbyte', 'rename'):
+            self.ack.release()
+            self.go.acquire()
+
+    def start(self):
+        self.r.other = self
+        self.th.start()
+        # tid must be known before the thread touches the recorder: _run sets it first; wait for the first stop
+        self.ack.acquire()
+
+    def step(self):
+        if self.finished:
+            return
+        self.go.release()
+        self.ack.acquire()
+
+    def finish(self):
+        n = 0
+        while not self.finished and n < 20:
+            self.step()
+            n += 1
+        self.th.join(5)
 
 
 class WrapFile:
@@ -316,16 +434,16 @@ class WrapFile:
         data = ''.join(self.buf).encode(self.f.encoding or 'utf-8')
         n = len(data)
         r.fileinfo[(d, c)]['intended'] = data
-        k = r.wk if r.wk is not None else n // 2
+        k = r.wk if (r.wk is not None and r.who == 1) else n // 2
         k = max(1, min(k, n - 1))
         raw = self.f.buffer
         try:
             raw.write(data[:k])
             raw.flush()
-            r.emit({'e': 'wbyte', 'dir': d, 'crc': c, 'cut': 1, 'k': k, 'of': n}, True)
+            r.emit({'e': 'wbyte', 'dir': d, 'crc': c, 'cut': 1, 'k': k, 'of': n, 'who': r.who, 'icrc': r.icrc}, True)
             raw.write(data[k:])
             raw.flush()
-            r.emit({'e': 'wbyte', 'dir': d, 'crc': c, 'cut': 2, 'k': n, 'of': n}, True)
+            r.emit({'e': 'wbyte', 'dir': d, 'crc': c, 'cut': 2, 'k': n, 'of': n, 'who': r.who, 'icrc': r.icrc}, True)
         except Crash:
             self.f.close()
             raise
@@ -377,13 +495,20 @@ def _install():
         if r is None:
             return self._insert_impl(crc, toc)
         r.pend_tab = r.tab(proj_table(toc))
-        r.emit({'e': 'download', 'kind': r.kind, 'tab': r.pend_tab}, True)
+        r.icrc = crc_str(crc)
+        if r.who == 2:
+            r.emit({'e': 'odl', 'tab': r.pend_tab})
+        else:
+            r.emit({'e': 'download', 'kind': r.kind, 'tab': r.pend_tab}, True)
         r.opened = None
+        r.open_failed = False
         self._insert_impl(crc, toc)
-        if r.opened is None:
-            r.emit({'e': 'noinsert'}, True)
+        if r.who == 2:
+            r.emit({'e': 'oend'})
+        elif r.opened is None:
+            r.emit({'e': 'ifail' if r.open_failed else 'noinsert'}, True)
         elif r.opened.closed_ok:
-            r.emit({'e': 'iend', 'dir': r.opened.d, 'crc': r.opened.c, 'known': r.known()}, True)
+            r.emit({'e': 'iend', 'dir': r.opened.d, 'crc': r.icrc, 'known': r.known()}, True)
         else:
             raise RuntimeError('C11 harness: insert opened a cache file and did not close it')
 
@@ -394,18 +519,44 @@ def _install():
         r = REC
         if r is None or 'w' not in mode:
             return builtins.open(name, mode, *a, **kw)
-        f = builtins.open(name, mode, *a, **kw)        # creates / truncates exactly as the code asked
+        try:
+            f = builtins.open(name, mode, *a, **kw)    # creates / truncates exactly as the code asked
+        except Exception:
+            r.open_failed = True
+            raise
         d, c = r.locate(name)
         wf = WrapFile(r, f, d, c)
         r.opened = wf
         r.fileinfo[(d, c)] = {'intended': None, 'tab': r.pend_tab, 'garbage': None}
         try:
-            r.emit({'e': 'ibegin', 'dir': d, 'crc': c}, True)
+            r.emit({'e': 'ibegin', 'dir': d, 'crc': c, 'who': r.who}, True)
         except Crash:
             f.close()
             raise
         return wf
     tcm.open = rec_open                                # shadows the builtin inside toccache.py only
+
+    class OsProxy:
+        """toccache.os while recording: os.replace / os.rename of cache files are performed and recorded"""
+
+        def __getattr__(self, n):
+            return getattr(os, n)
+
+        def _move(self, fn, src, dst):
+            r = REC
+            fn(src, dst)
+            if r is not None:
+                (d1, c1), (d2, c2) = r.locate(src), r.locate(dst)
+                if (d1, c1) in r.fileinfo:
+                    r.fileinfo[(d2, c2)] = r.fileinfo.pop((d1, c1))
+                r.emit({'e': 'rename', 'dir': d2, 'from': c1, 'crc': c2, 'who': r.who}, True)
+
+        def replace(self, src, dst, **kw):
+            return self._move(os.replace, src, dst)
+
+        def rename(self, src, dst, **kw):
+            return self._move(os.rename, src, dst)
+    tcm.os = OsProxy()
 
     TF = tocm.TocFetcher
     orig_start, orig_fin = TF.start, TF._toc_fetch_finished
@@ -579,7 +730,64 @@ def _mut_stat_escapes(TC):
     TC._fetch_impl = fetch
 
 
-MUTANTS = {'stat_escapes': _mut_stat_escapes, 'short_suffix': _mut_short_suffix, 'partial_parse': _mut_partial_parse,
+def _mut_shared_tmp(TC):
+    import cflib.crazyflie.toccache as tcm
+
+    def insert(self, crc, toc):
+        if self._rw_cache:
+            try:
+                filename = '%s/%08X.json' % (self._rw_cache, crc)
+                scratch = '%s/toc.tmp' % self._rw_cache          # one scratch name for every store
+                with tcm.open(scratch, 'w') as cache:
+                    cache.write(json.dumps(toc, indent=2, default=self._encoder))
+                tcm.os.replace(scratch, filename)
+                self._cache_files += [filename]
+            except Exception:
+                pass
+    TC._insert_impl = insert
+
+
+def _mut_close_in_finally(TC):
+    import cflib.crazyflie.toccache as tcm
+
+    def insert(self, crc, toc):
+        if self._rw_cache:
+            try:
+                filename = '%s/%08X.json' % (self._rw_cache, crc)
+                cache = tcm.open(filename, 'w')
+                cache.write(json.dumps(toc, indent=2, default=self._encoder))
+                self._cache_files += [filename]
+            except Exception:
+                pass
+            finally:
+                cache.close()                                   # unbound when open() itself failed
+    TC._insert_impl = insert
+
+
+def _mut_nontable_returned(TC):
+    import cflib.crazyflie.toccache as tcm
+
+    def fetch(self, crc):
+        cache_data = None
+        hit = None
+        for name in self._cache_files:
+            if name.endswith('%08X.json' % crc):
+                hit = name
+        if hit:
+            try:
+                cache = tcm.open(hit)
+                cache_data = json.load(cache, object_hook=self._decoder)
+                cache.close()
+                if not self._is_toc(cache_data):
+                    raise ValueError('not a TOC but %s' % type(cache_data).__name__)   # cache_data keeps the junk
+            except Exception:
+                pass
+        return cache_data
+    TC._fetch_impl = fetch
+
+
+MUTANTS = {'shared_tmp': _mut_shared_tmp, 'close_in_finally': _mut_close_in_finally,
+           'nontable_returned': _mut_nontable_returned, 'stat_escapes': _mut_stat_escapes, 'short_suffix': _mut_short_suffix, 'partial_parse': _mut_partial_parse,
            'drop_extended': _mut_drop_extended, 'pytype_from_ctype': _mut_pytype_from_ctype,
            'error_escapes': _mut_error_escapes, 'write_ro': _mut_write_ro,
            'ident_from_order': _mut_ident_from_order}
@@ -666,7 +874,8 @@ def _writable(p):
     if p and os.path.isdir(p):
         os.chmod(p, 0o755)
         for fn in os.listdir(p):
-            os.chmod(os.path.join(p, fn), 0o644)
+            q = os.path.join(p, fn)
+            os.chmod(q, 0o755 if os.path.isdir(q) else 0o644)
 
 
 def _freeze_ro(p):
@@ -674,7 +883,7 @@ def _freeze_ro(p):
     if p and os.path.isdir(p):
         for fn in os.listdir(p):
             q = os.path.join(p, fn)
-            os.chmod(q, 0o444)
+            os.chmod(q, 0o555 if os.path.isdir(q) else 0o444)
             os.utime(q, ns=(OLD_NS, OLD_NS))
         os.chmod(p, 0o555)
         os.utime(p, ns=(OLD_NS, OLD_NS))
@@ -690,12 +899,15 @@ def listing(p):
     for fn in sorted(os.listdir(p)):
         q = os.path.join(p, fn)
         st = os.stat(q)
+        if os.path.isdir(q):
+            out.append('%s|dir|%d|%o' % (fn, st.st_mtime_ns, st.st_mode & 0o777))
+            continue
         h = hashlib.sha256(builtins.open(q, 'rb').read()).hexdigest()[:16]
         out.append('%s|%d|%s|%d|%o' % (fn, st.st_size, h, st.st_mtime_ns, st.st_mode & 0o777))
     return out
 
 
-ENV_OPS = ('cut', 'garbage', 'remove', 'copy')
+ENV_OPS = ('cut', 'garbage', 'remove', 'copy', 'rmdir', 'blockname', 'obegin', 'ostep')
 
 
 def _env_emit(r, e):
@@ -724,10 +936,45 @@ def _env_op(r, op):
     TocCache object lives (idle, or between the start of a connection and a look-up).  Ops that do not
     apply are skipped."""
     k = op[0]
-    d, c = op[1], op[2]
-    p = os.path.join(r.dirs[d], c + '.json')
+    if k == 'obegin':                      # ['obegin', dir, crc, table index]: another cache object starts a store
+        if r.other is not None and not r.other.finished:
+            return
+        if not os.path.isdir(r.dirs[op[1]]):
+            return
+        _writable(r.dirs[op[1]])
+        OtherWriter(r, op[1], op[2], r.sc['tables'][op[3]]).start()
+        return
+    if k == 'ostep':                       # ... and is let forward by one file operation
+        if r.other is not None:
+            _writable(r.dirs[r.other.d])
+            r.other.step()
+            if r.other.finished and r.other.error:
+                raise RuntimeError('C11 harness: the other cache object died:\n' + r.other.error)
+        return
     _writable(r.dirs['A'])
     _writable(r.dirs['B'])
+    if k == 'rmdir':                       # the whole directory disappears
+        d = op[1]
+        if not os.path.isdir(r.dirs[d]) or (r.other is not None and not r.other.finished and r.other.d == d):
+            return
+        shutil.rmtree(r.dirs[d])
+        for key in [x for x in r.fileinfo if x[0] == d]:
+            r.fileinfo.pop(key)
+        _env_emit(r, {'e': 'rmdir', 'dir': d})
+        return
+    d, c = op[1], op[2]
+    p = os.path.join(r.dirs[d], c + '.json')
+    if k == 'blockname':                   # the name of the cache file is taken by a directory
+        if not os.path.isdir(r.dirs[d]):
+            return
+        if os.path.isdir(p):
+            return
+        if os.path.isfile(p):
+            os.remove(p)
+        os.mkdir(p)
+        r.fileinfo.pop((d, c), None)
+        _env_emit(r, {'e': 'blockname', 'dir': d, 'crc': c})
+        return
     info = r.fileinfo.get((d, c))
     exists = os.path.isfile(p)
     complete = exists and info is not None and not info['garbage'] and info['intended'] is not None and \
@@ -756,6 +1003,10 @@ def _env_op(r, op):
         fl = 'falsy' if GARBAGE[op[3]] == 'falsy' and op[3] != 'json_null' else 'garbage'
         _env_emit(r, {'e': 'garbage', 'dir': d, 'crc': c, 'variant': op[3], 'cls': GARBAGE[op[3]], 'flavour': fl})
     elif k == 'remove':
+        if os.path.isdir(p):
+            os.rmdir(p)
+            _env_emit(r, {'e': 'remove', 'dir': d, 'crc': c})
+            return
         if not exists:
             return
         os.remove(p)
@@ -763,7 +1014,7 @@ def _env_op(r, op):
         _env_emit(r, {'e': 'remove', 'dir': d, 'crc': c})
     elif k == 'copy':
         to = op[3]
-        if not exists or to == d:
+        if not exists or to == d or os.path.isdir(os.path.join(r.dirs[to], c + '.json')):
             return
         os.makedirs(r.dirs[to], exist_ok=True)
         shutil.copyfile(p, os.path.join(r.dirs[to], c + '.json'))
@@ -898,7 +1149,12 @@ def execute(sc, mutant=None):
                 i += 1
             else:
                 i += 1                     # connect/close/exit without a process: ignored
+        if r.other is not None:
+            _writable(r.dirs[r.other.d])
+            r.other.finish()
     finally:
+        if r.other is not None and not r.other.finished:
+            r.other.finish()
         REC = None
         undo()
         _writable(r.dirs['A'])
